@@ -6,9 +6,25 @@ package main
 // the deptest schema syntax and its classifiers, so that both sides of the
 // correspondence are parameterised by the same extracted data.
 
+//
+// Nothing is looked up by the name of an unexported identifier or by the shape of a
+// statement: the key tables of the test helpers are found by their TYPE ([]AttrKey,
+// map[AttrKey]bool), the bitset field of attr.Set by its type, the mask length by its
+// role (the bound of the bit-index loop, else the package's only other integer constant,
+// else the width of attr.Mask), the key limit of SetAttr by calling it in the linked
+// code, the String() texts by calling them. Exported names (AttrKey, Set, Mask, the
+// key constants) are API. What stays syntactic: the ELEMENTS of allKeys / flagKeys are
+// read from their composite literals (constant expressions evaluated by go/types); a
+// table built in init() needs a hook (internal packages cannot be linked by the harness):
+//
+//	// in util/resolve/verifx (build tag verif), with deptest/versiontest exporting the two tables:
+//	func DepTestKeys() (all []dep.AttrKey, flags map[dep.AttrKey]bool)
+//	func VersionTestKeys() (all []version.AttrKey, flags map[version.AttrKey]bool)
+
 import (
 	"fmt"
 	"go/ast"
+	"go/constant"
 	"go/token"
 	"go/types"
 	"path/filepath"
@@ -19,6 +35,7 @@ import (
 	"unicode/utf8"
 
 	"deps.dev/util/resolve/dep"
+	"deps.dev/util/resolve/verifx"
 	"deps.dev/util/resolve/version"
 	"golang.org/x/tools/go/packages"
 	"verifharness/fw"
@@ -42,19 +59,82 @@ type facts struct {
 
 func constValOf(p *packages.Package, e ast.Expr) (int64, bool) { return fw.EvalInt(p, e) }
 
-// keysOfVar reads `var allKeys = []T{pkg.A, ...}` or `var flagKeys = map[T]bool{pkg.A: true}`.
-func keysOfVar(p *packages.Package, name string) ([]int64, error) {
-	e := fw.FindVar(p, name)
-	cl, ok := e.(*ast.CompositeLit)
+// attrKeyType reports whether t is the exported named type AttrKey of some package.
+func attrKeyType(t types.Type) bool {
+	nt, ok := t.(*types.Named)
+	return ok && nt.Obj().Name() == "AttrKey" && nt.Obj().Exported()
+}
+
+// varInitOf returns the initialiser of a package-level variable.
+func varInitOf(p *packages.Package, o types.Object) ast.Expr {
+	for _, f := range p.Syntax {
+		for _, d := range f.Decls {
+			gd, ok := d.(*ast.GenDecl)
+			if !ok {
+				continue
+			}
+			for _, sp := range gd.Specs {
+				vs, ok := sp.(*ast.ValueSpec)
+				if !ok {
+					continue
+				}
+				for i, n := range vs.Names {
+					if p.TypesInfo.Defs[n] == o && i < len(vs.Values) {
+						return vs.Values[i]
+					}
+				}
+			}
+		}
+	}
+	return nil
+}
+
+// keysOfVar reads the test helper's table of the given kind, found by its type:
+// "all" is the package-level []AttrKey (or [N]AttrKey), "flags" the map[AttrKey]bool.
+// `var allKeys = []T{pkg.A, ...}`, `var flagKeys = map[T]bool{pkg.A: true}`.
+func keysOfVar(p *packages.Package, kind string) ([]int64, error) {
+	var found []*types.Var
+	for _, n := range p.Types.Scope().Names() {
+		v, ok := p.Types.Scope().Lookup(n).(*types.Var)
+		if !ok {
+			continue
+		}
+		switch u := v.Type().Underlying().(type) {
+		case *types.Slice:
+			if kind == "all" && attrKeyType(u.Elem()) {
+				found = append(found, v)
+			}
+		case *types.Array:
+			if kind == "all" && attrKeyType(u.Elem()) {
+				found = append(found, v)
+			}
+		case *types.Map:
+			if b, ok := u.Elem().Underlying().(*types.Basic); kind == "flags" && attrKeyType(u.Key()) && ok && b.Kind() == types.Bool {
+				found = append(found, v)
+			}
+		}
+	}
+	what := map[string]string{"all": "[]AttrKey", "flags": "map[AttrKey]bool"}[kind]
+	if len(found) != 1 {
+		return nil, fmt.Errorf("%s: expected one package-level variable of type %s, found %d", p.PkgPath, what, len(found))
+	}
+	name := found[0].Name()
+	cl, ok := varInitOf(p, found[0]).(*ast.CompositeLit)
 	if !ok {
-		return nil, fmt.Errorf("%s.%s: not a composite literal", p.PkgPath, name)
+		return nil, fmt.Errorf("%s.%s: not a composite literal (a run-time hook is needed, see facts.go)", p.PkgPath, name)
 	}
 	var out []int64
 	for _, el := range cl.Elts {
 		k := el
 		if kv, ok := el.(*ast.KeyValueExpr); ok {
+			if kind == "all" {
+				return nil, fmt.Errorf("%s.%s: keyed element", p.PkgPath, name)
+			}
 			b, ok := p.TypesInfo.Types[kv.Value]
-			if !ok || b.Value == nil || b.Value.String() != "true" {
+			if !ok || b.Value == nil || b.Value.Kind() != constant.Bool {
+				return nil, fmt.Errorf("%s.%s: non-constant value", p.PkgPath, name)
+			}
+			if !constant.BoolVal(b.Value) {
 				continue // a flagKeys entry mapped to false is not a flag
 			}
 			k = kv.Key
@@ -66,6 +146,90 @@ func keysOfVar(p *packages.Package, name string) ([]int64, error) {
 		out = append(out, v)
 	}
 	return out, nil
+}
+
+// maskLenOf finds how many mask bits the package uses: the constant bound of its
+// bit-index loop (`for …; bit < N; …` where bit is a shift count), else the package's only
+// integer constant that is not an AttrKey, else -1 (the package states no bound of its own).
+func maskLenOf(p *packages.Package) (int64, error) {
+	loop := map[int64]bool{}
+	for _, f := range p.Syntax {
+		ast.Inspect(f, func(n ast.Node) bool {
+			fs, ok := n.(*ast.ForStmt)
+			if !ok || fs.Cond == nil {
+				return true
+			}
+			var leaf func(e ast.Expr)
+			leaf = func(e ast.Expr) {
+				b, ok := ast.Unparen(e).(*ast.BinaryExpr)
+				if !ok {
+					return
+				}
+				var idx ast.Expr
+				var bound ast.Expr
+				switch b.Op {
+				case token.LAND:
+					leaf(b.X)
+					leaf(b.Y)
+					return
+				case token.LSS:
+					idx, bound = b.X, b.Y
+				case token.GTR:
+					idx, bound = b.Y, b.X
+				default:
+					return
+				}
+				v, ok := fw.EvalInt(p, bound)
+				id, ok2 := ast.Unparen(idx).(*ast.Ident)
+				if !ok || !ok2 {
+					return
+				}
+				o := p.TypesInfo.Uses[id]
+				isShiftCount := false
+				ast.Inspect(fs, func(m ast.Node) bool {
+					if sh, ok := m.(*ast.BinaryExpr); ok && (sh.Op == token.SHL || sh.Op == token.SHR) {
+						if c, ok := ast.Unparen(sh.Y).(*ast.Ident); ok && o != nil && p.TypesInfo.Uses[c] == o {
+							isShiftCount = true
+						}
+					}
+					return true
+				})
+				if isShiftCount {
+					loop[v] = true
+				}
+			}
+			leaf(fs.Cond)
+			return true
+		})
+	}
+	if len(loop) == 1 {
+		for v := range loop {
+			return v, nil
+		}
+	}
+	if len(loop) > 1 {
+		return 0, fmt.Errorf("%s: bit-index loops with different bounds", p.PkgPath)
+	}
+	var others []int64
+	for _, n := range p.Types.Scope().Names() {
+		c, ok := p.Types.Scope().Lookup(n).(*types.Const)
+		if !ok || attrKeyType(c.Type()) {
+			continue
+		}
+		if b, ok := c.Type().Underlying().(*types.Basic); !ok || b.Info()&types.IsInteger == 0 {
+			continue
+		}
+		if v, ok := constant.Int64Val(constant.ToInt(c.Val())); ok {
+			others = append(others, v)
+		}
+	}
+	if len(others) == 1 {
+		return others[0], nil
+	}
+	if len(others) > 1 {
+		return 0, fmt.Errorf("%s: several integer constants besides the AttrKey values, cannot tell the mask length", p.PkgPath)
+	}
+	return -1, nil
 }
 
 func stringerConcat(p *packages.Package) string {
@@ -97,7 +261,7 @@ func loadKeyFacts(repo, pkgDir, testDir string, str func(int64) string) (keyFact
 	if len(kf.Names) == 0 {
 		return kf, fmt.Errorf("%s: no AttrKey constants", pkgDir)
 	}
-	if kf.MaskLen, err = fw.ConstInt(p, "maskLen"); err != nil {
+	if kf.MaskLen, err = maskLenOf(p); err != nil {
 		return kf, err
 	}
 	tables := stringerConcat(p)
@@ -117,10 +281,10 @@ func loadKeyFacts(repo, pkgDir, testDir string, str func(int64) string) (keyFact
 	if err != nil {
 		return kf, err
 	}
-	if kf.AllKeys, err = keysOfVar(tp, "allKeys"); err != nil {
+	if kf.AllKeys, err = keysOfVar(tp, "all"); err != nil {
 		return kf, err
 	}
-	if kf.FlagKeys, err = keysOfVar(tp, "flagKeys"); err != nil {
+	if kf.FlagKeys, err = keysOfVar(tp, "flags"); err != nil {
 		return kf, err
 	}
 	sort.Slice(kf.FlagKeys, func(i, j int) bool { return kf.FlagKeys[i] < kf.FlagKeys[j] })
@@ -158,56 +322,47 @@ func attrFacts(repo string, f *facts) error {
 	if !ok {
 		return fmt.Errorf("attr.Set is not a struct")
 	}
+	// Mask: the field of the exported type attr.Mask; the bitset: the only field that is a
+	// plain unsigned integer.
+	nBits := 0
 	for i := 0; i < st.NumFields(); i++ {
-		switch fld := st.Field(i); fld.Name() {
-		case "attrBits":
-			f.AttrBitsBits = width(fld.Type())
-		case "Mask":
-			f.MaskBits = width(fld.Type())
-		}
-	}
-	if f.AttrBitsBits == 0 || f.MaskBits == 0 {
-		return fmt.Errorf("attr.Set: attrBits/Mask fields not found or not unsigned integers")
-	}
-	f.KeyLimit = -1
-	for _, file := range p.Syntax {
-		for _, d := range file.Decls {
-			fd, ok := d.(*ast.FuncDecl)
-			if !ok || fd.Name.Name != "SetAttr" || fd.Body == nil {
-				continue
+		fld := st.Field(i)
+		if nt, ok := fld.Type().(*types.Named); ok {
+			if nt.Obj().Pkg() == p.Types && nt.Obj().Name() == "Mask" {
+				f.MaskBits = width(nt)
 			}
-			ast.Inspect(fd.Body, func(n ast.Node) bool {
-				is, ok := n.(*ast.IfStmt)
-				if !ok || f.KeyLimit >= 0 {
-					return true
-				}
-				be, ok := is.Cond.(*ast.BinaryExpr)
-				if !ok || be.Op != token.GEQ {
-					return true
-				}
-				if id, ok := be.X.(*ast.Ident); !ok || id.Name != "key" {
-					return true
-				}
-				if len(is.Body.List) == 0 {
-					return true
-				}
-				es, ok := is.Body.List[0].(*ast.ExprStmt)
-				if !ok {
-					return true
-				}
-				if call, ok := es.X.(*ast.CallExpr); ok {
-					if id, ok := call.Fun.(*ast.Ident); ok && id.Name == "panic" {
-						if v, ok := fw.EvalInt(p, be.Y); ok {
-							f.KeyLimit = v
-						}
-					}
-				}
-				return true
-			})
+			continue
+		}
+		if w := width(fld.Type()); w != 0 {
+			f.AttrBitsBits = w
+			nBits++
 		}
 	}
-	if f.KeyLimit < 0 {
-		return fmt.Errorf("attr.Set.SetAttr: `if key >= N { panic }` not found")
+	if f.AttrBitsBits == 0 || f.MaskBits == 0 || nBits != 1 {
+		return fmt.Errorf("attr.Set: expected one Mask field and one plain unsigned integer field (the bitset), found %d of the latter", nBits)
+	}
+	// the key limit: SetAttr of the linked code panics exactly from it on
+	panics := func(k int) (p bool) {
+		defer func() {
+			if recover() != nil {
+				p = true
+			}
+		}()
+		var s verifx.AttrSet
+		s.SetAttr(uint8(k), "")
+		return false
+	}
+	f.KeyLimit = 256
+	for k := 0; k < 256; k++ {
+		if panics(k) {
+			f.KeyLimit = int64(k)
+			break
+		}
+	}
+	for k := int(f.KeyLimit); k < 256; k++ {
+		if !panics(k) {
+			return fmt.Errorf("attr.Set.SetAttr panics for key %d but not for %d: not a key limit", f.KeyLimit, k)
+		}
 	}
 	return nil
 }
@@ -225,6 +380,13 @@ func loadFacts(repo string) (*facts, error) {
 	}
 	if err = attrFacts(repo, &f); err != nil {
 		return nil, err
+	}
+	// a package that states no mask length of its own is bounded by the width of attr.Mask
+	if f.Dep.MaskLen < 0 {
+		f.Dep.MaskLen = f.MaskBits
+	}
+	if f.Ver.MaskLen < 0 {
+		f.Ver.MaskLen = f.MaskBits
 	}
 	return &f, nil
 }
